@@ -87,6 +87,126 @@ theorem C06_ip_ble_dead_accepts_nothing : ∀ (evs : List Ev) (s : St), s.alive 
 example : run {} [.send 2, .deliver (.genuine 0), .deliver (.genuine 0), .send 1, .deliver (.genuine 1)] =
     [.sealed 0, .sealed 1, .accepted 0, .closed, .sealed 2] := by decide
 
+/-! ## several sessions of one pairing -/
+
+theorem ssealedOf_append (a b : List (Nat × Obs)) : ssealedOf (a ++ b) = ssealedOf a ++ ssealedOf b := by
+  simp [ssealedOf, List.filterMap_append]
+theorem sacceptedOf_append (a b : List (Nat × Obs)) : sacceptedOf (a ++ b) = sacceptedOf a ++ sacceptedOf b := by
+  simp [sacceptedOf, List.filterMap_append]
+
+theorem ssealedOf_map (k : Nat) (l : List Obs) : ssealedOf (l.map (fun o => (k, o))) = (sealedOf l).map (fun n => (k, n)) := by
+  induction l with
+  | nil => rfl
+  | cons a l ih =>
+    cases a <;> simp [ssealedOf, sealedOf, List.filterMap_cons] at ih ⊢ <;> exact ih
+theorem sacceptedOf_map (k : Nat) (l : List Obs) : sacceptedOf (l.map (fun o => (k, o))) = (acceptedOf l).map (fun n => (k, n)) := by
+  induction l with
+  | nil => rfl
+  | cons a l ih =>
+    cases a <;> simp [sacceptedOf, acceptedOf, List.filterMap_cons] at ih ⊢ <;> exact ih
+
+theorem nodup_map_pair (k : Nat) : ∀ (l : List Nat), l.Nodup → (l.map (fun n => (k, n))).Nodup := by
+  intro l
+  induction l with
+  | nil => intro _; simp
+  | cons a t ih =>
+    intro h
+    rw [List.nodup_cons] at h
+    simp only [List.map_cons, List.nodup_cons, List.mem_map, not_exists, not_and]
+    refine ⟨fun x hx heq => ?_, ih h.2⟩
+    simp only [Prod.mk.injEq, true_and] at heq
+    subst heq; exact h.1 hx
+
+/-- over any number of sessions: every (key set, nonce) pair is used for sealing at most once, every
+    (key set, message counter) is accepted at most once; later observations belong to the current key set at or
+    beyond its counters, or to a later key set -/
+theorem srun_spec : ∀ (evs : List SEv) (s : Sess),
+    ((ssealedOf (srun s evs)).Nodup ∧
+      ∀ p ∈ ssealedOf (srun s evs), s.epoch < p.1 ∨ (p.1 = s.epoch ∧ s.st.sendCtr ≤ p.2)) ∧
+    ((sacceptedOf (srun s evs)).Nodup ∧
+      ∀ p ∈ sacceptedOf (srun s evs), s.epoch < p.1 ∨ (p.1 = s.epoch ∧ s.st.recvCtr ≤ p.2)) := by
+  intro evs
+  induction evs with
+  | nil => intro s; simp [srun, ssealedOf, sacceptedOf]
+  | cons e es ih =>
+    intro s
+    cases e with
+    | rekey =>
+      obtain ⟨⟨n1, b1⟩, ⟨n2, b2⟩⟩ := ih { epoch := s.epoch + 1, st := {} }
+      simp only [srun, sstep, List.nil_append]
+      refine ⟨⟨n1, fun p hp => ?_⟩, ⟨n2, fun p hp => ?_⟩⟩
+      · rcases b1 p hp with h | h
+        · left; simp at h; omega
+        · left; simp at h; omega
+      · rcases b2 p hp with h | h
+        · left; simp at h; omega
+        · left; simp at h; omega
+    | ev e =>
+      obtain ⟨k, a, h1, h2, h3, h4⟩ := step_obs s.st e
+      obtain ⟨⟨n1, b1⟩, ⟨n2, b2⟩⟩ := ih { s with st := (step s.st e).1 }
+      simp only [srun, sstep, ssealedOf_append, sacceptedOf_append, ssealedOf_map, sacceptedOf_map, h1, h3]
+      refine ⟨⟨?_, fun p hp => ?_⟩, ⟨?_, fun p hp => ?_⟩⟩
+      · rw [List.nodup_append]
+        refine ⟨?_, n1, ?_⟩
+        · exact nodup_map_pair _ _ List.nodup_range'
+        · intro x hx y hy hxy
+          subst hxy
+          simp only [List.mem_map, List.mem_range'_1] at hx
+          obtain ⟨n, hn, rfl⟩ := hx
+          rcases b1 _ hy with h | h
+          · simp at h
+          · simp only [true_and] at h
+            rw [h2] at h; omega
+      · rcases List.mem_append.mp hp with hp | hp
+        · simp only [List.mem_map, List.mem_range'_1] at hp
+          obtain ⟨n, hn, rfl⟩ := hp
+          right; exact ⟨rfl, hn.1⟩
+        · rcases b1 p hp with h | h
+          · left; exact h
+          · right; refine ⟨h.1, ?_⟩
+            have := h.2; simp only [h2] at this; omega
+      · rw [List.nodup_append]
+        refine ⟨?_, n2, ?_⟩
+        · exact nodup_map_pair _ _ List.nodup_range'
+        · intro x hx y hy hxy
+          subst hxy
+          simp only [List.mem_map, List.mem_range'_1] at hx
+          obtain ⟨n, hn, rfl⟩ := hx
+          rcases b2 _ hy with h | h
+          · simp at h
+          · simp only [true_and] at h
+            rw [h4] at h; omega
+      · rcases List.mem_append.mp hp with hp | hp
+        · simp only [List.mem_map, List.mem_range'_1] at hp
+          obtain ⟨n, hn, rfl⟩ := hp
+          right; exact ⟨rfl, hn.1⟩
+        · rcases b2 p hp with h | h
+          · left; exact h
+          · right; refine ⟨h.1, ?_⟩
+            have := h.2; simp only [h4] at this; omega
+
+
+/-- **Across sessions** (IP reconnects, BLE pair-verify and pair-resume in any order, any traffic and failures in
+    between): no (key set, nonce) pair is ever used twice for sealing -/
+theorem C06_sessions_nonce_unique (evs : List SEv) (s : Sess) : (ssealedOf (srun s evs)).Nodup :=
+  (srun_spec evs s).1.1
+
+/-- ... and no (key set, message counter) is accepted twice -/
+theorem C06_sessions_accept_once (evs : List SEv) (s : Sess) : (sacceptedOf (srun s evs)).Nodup :=
+  (srun_spec evs s).2.1
+
+/-- a new session never continues an old key set: everything sealed after a re-key carries a later epoch -/
+theorem C06_rekey_fresh (evs : List SEv) (s : Sess) :
+    ∀ p ∈ ssealedOf (srun s (.rekey :: evs)), s.epoch < p.1 := by
+  intro p hp
+  have := (srun_spec evs { epoch := s.epoch + 1, st := {} }).1.2 p (by simpa [srun, sstep] using hp)
+  rcases this with h | h
+  · simp at h; omega
+  · simp at h; omega
+
+example : srun {} [.ev (.send 2), .ev (.deliver (.genuine 0)), .rekey, .ev (.send 1), .ev (.deliver (.genuine 0))] =
+    [(0, .sealed 0), (0, .sealed 1), (0, .accepted 0), (1, .sealed 0), (1, .accepted 0)] := by decide
+
 /-! ## CoAP -/
 
 /-- **CoAP events**: own counter, success-only advance: accepted exactly once, in order -/
